@@ -186,7 +186,7 @@ char ZCK_PUBLIC_API *zck_get_range_char(zckCtx *zck, zckRange *range) {
             free(output);
             return NULL;
         }
-        if(length > buf_size-loc) {
+        if(length >= buf_size-loc) {
             buf_size = (int)(buf_size * 1.5);
             output = zrealloc(output, buf_size);
             if (!output) {
@@ -199,8 +199,10 @@ char ZCK_PUBLIC_API *zck_get_range_char(zckCtx *zck, zckRange *range) {
         count++;
         ri = ri->next;
     }
-    output[loc-1]='\0'; // Remove final comma
-    output = zrealloc(output, loc);
+    if(loc > 0)
+        loc--; // Remove final comma
+    output[loc]='\0';
+    output = zrealloc(output, loc+1);
     return output;
 }
 
